@@ -18,6 +18,8 @@ CONSTANTS
   PadOdd = TRUE
   SeekFirst = TRUE
   IterYieldsAll = TRUE
+  FdKinds = {"none"}
+  TrustFd = FALSE
 SPECIFICATION Spec
 INVARIANT TypeOK
 INVARIANT IndexExact
